@@ -301,6 +301,45 @@ def stillRelevant (c : Chain) (t : Tx) : Bool :=
     | none => (verifyWitnesses c left (t.signers.map (·.wit))).isSome
     | some total => decide (total ≤ left)
 
+/-- `mempool.Pool.HasConflicts(t)` (mem_pool.go:150-169) on the scratch pool holding the transactions `blk` of a block:
+`t` is in it, or one of them names `t` in a Conflicts attribute (whoever signed it: "do not check sender's signature
+and fee"), or `t` names one of them. -/
+def blockHasConflicts (blk : List Tx) (t : Tx) : Bool :=
+  blk.any (·.hash == t.hash) || blk.any (fun y => (conflictHashes y).contains t.hash)
+    || (conflictHashes t).any (fun h => blk.any (·.hash == h))
+
+/-- `IsTxStillRelevant(t, txpool, false)` with the scratch pool of the block just accepted (blockchain.go:2220, the
+way `RemoveStale` is driven after every block): the on-chain lookup is replaced by `txpool.HasConflicts`. -/
+def stillRelevantAfter (c : Chain) (blk : List Tx) (t : Tx) : Bool :=
+  if t.validUntil ≤ c.height then false
+  else if t.validUntil > c.height + c.maxVUBInc then false
+  else if blockHasConflicts blk t then false
+  else if t.signers.any (fun s => c.blocked s.account) then false
+  else if t.netFee < t.size * c.feePerByte + attrsFee c t.signers.length t.attrs then false
+  else if !verifyAttrs c t then false
+  else
+    let left := t.netFee - (t.size * c.feePerByte + attrsFee c t.signers.length t.attrs)
+    match standardCost c (t.signers.map (·.wit)) with
+    | none => (verifyWitnesses c left (t.signers.map (·.wit))).isSome
+    | some total => decide (total ≤ left)
+
+/-- what `dao.StoreAsTransaction(y, index)` (dao.go:948-992) does to the records `HasTransaction` reads: `y` itself
+becomes a transaction; under every hash `y` names (unless a block is stored there) the stub gets the new index and
+every signer of `y` a per-signer record with it (older per-signer records of other accounts stay). -/
+def storeTx (lookup : Nat → Rec) (y : Tx) (index : Nat) : Nat → Rec := fun h =>
+  if h = y.hash then .tx
+  else if (conflictHashes y).contains h then
+    match lookup h with
+    | .block => .block
+    | .stub _ recs => .stub index ((accounts y).map (·, index) ++ recs.filter fun q => !(accounts y).contains q.1)
+    | _ => .stub index ((accounts y).map (·, index))
+  else lookup h
+
+/-- the transactions of a block, in block order. -/
+def storeBlock (lookup : Nat → Rec) (index : Nat) : List Tx → Nat → Rec
+  | [] => lookup
+  | y :: ys => storeBlock (storeTx lookup y index) index ys
+
 /-- the same function before the two fixes (kept for the regression examples of Props/C07). -/
 def stillRelevantOld (c : Chain) (t : Tx) : Bool :=
   if t.validUntil ≤ c.height then false
